@@ -461,6 +461,27 @@ def _it_flat_map(ex, c, a, d):
     return _owned(out)
 
 
+def _it_find(ex, c, a, d):
+    """Iterator::find over a list iterator: the predicate is run on a reference to each item in order; a symbolic answer forks the path"""
+    from .exec import ENV_PASS
+    from .builtins import _wr
+    it = deref(ex, a[0])
+    if not _is_it(it):
+        return ENV_PASS
+    items = _rest(ex, it)
+    for k, x in enumerate(items):
+        r = ex.call_value(ex.top_frame, a[1], [ex.ctx.ref_to(x)], "bool")
+        if not isinstance(r, BoolV):
+            return ENV_PASS
+        hit = r.t if isinstance(r.t, bool) else ex.decide(r.t)
+        if hit:
+            if isinstance(a[0], RefV):
+                lst, pos = it.fields
+                _wr(ex, a[0], AggV((lst, IntV(pos.t + k + 1, "usize")), it.ty))
+            return mk_option(True, x, d)
+    return mk_option(False, None, d)
+
+
 def _it_rev(ex, c, a, d):
     from .exec import ENV_PASS
     it = deref(ex, a[0])
@@ -486,6 +507,7 @@ def _it_flatten(ex, c, a, d):
 LIST_ADAPTORS2 = [
     (rx(r" as (?:std::iter::|core::iter::)?Iterator>::flat_map::<"), _it_flat_map),
     (rx(r" as (?:std::iter::|core::iter::)?Iterator>::flatten$"), _it_flatten),
+    (rx(r" as (?:std::iter::|core::iter::)?Iterator>::find::<"), _it_find),
     (rx(r" as (?:std::iter::|core::iter::)?(?:DoubleEnded)?Iterator>::rev$"), _it_rev),
     (rx(r" as (?:std::iter::|core::iter::)?Iterator>::any::<"), _it_any),
     (rx(r" as (?:std::iter::|core::iter::)?Iterator>::enumerate$"), _it_enumerate),
